@@ -15,6 +15,23 @@ def register(db):
     c.harness, c.pure = as_html_tags_harness, True
     c.real_name = DEPQ + "as_html_tags"
     db.add(c)
+    c2 = Contract(name=DEPQ + "as_html_tags#comps", params=[("self", "Any")], returns="Any", props=["C11", "C12"],
+                  note="every comprehension of as_html_tags is the element-wise map of its iterable (DESIGN 3.4): with it the per-item obligations of the record harness "
+                       "(one tag per item, attributes of that item) hold for meta / stylesheet / script lists of every length; decided on the AST alone")
+    c2.harness, c2.pure = comps_harness, True
+    db.add(c2)
+
+
+def comps_harness(I, c):
+    from ..symexec import Obligation
+    from .paths import comprehension_map_findings
+    qual = c.name.split("#")[0]
+    short = qual.replace("htmltools.", "")
+    obs = []
+    for k, bad in sorted(comprehension_map_findings(I.src.find(qual)).items()):
+        obs.append(Obligation(f"G:{short}:comp{k}.elementwise-map", [], z3.BoolVal(not bad), f"{qual} comprehension {k}", "G",
+                              "one `for`, no `if`, element expression over the element alone: " + ("holds" if not bad else "; ".join(bad[:4]))))
+    return obs
 
 
 def as_html_tags_harness(I, c):
